@@ -131,17 +131,20 @@ def g_gmm(draw):
     c["chunks"] = gen.with_empty_chunks(draw, gen.composition(draw, c["X"].shape[0], max_parts=gen.choice(draw, [6, 6, None])))
     c["fchunks"] = gen.composition(draw, c["X"].shape[1], max_parts=3)
     c["sched"] = schedule(draw)
+    # the count below which a component is not updated (mean_var_update_threshold): default, or a value that single
+    # blocks stay under while the whole data set does not
+    c["count_floor"] = gen.choice(draw, [EPS, EPS, EPS, 1e-6, 1e-2, 0.3])
     if c["trainer"] == "map":
         c["upd"] = [c["upd"][0], False, c["upd"][2]]  # KF-1 (MAP variance blend) is C05's business
     return c
 
 
-def gmm(case, thr):
+def gmm(case, thr, cap=None):
     from bob.learn.em import GMMMachine, KMeansMachine
 
     init, upd = case["init"], case["upd"]
-    kw = dict(convergence_threshold=thr, max_fitting_steps=case["cap"], update_means=upd[0], update_variances=upd[1],
-              update_weights=upd[2])
+    kw = dict(convergence_threshold=thr, max_fitting_steps=case["cap"] if cap is None else cap, update_means=upd[0],
+              update_variances=upd[1], update_weights=upd[2], mean_var_update_threshold=float(case.get("count_floor", EPS)))
     if case["trainer"] == "map":
         ubm = sut.make_gmm(init)
         return GMMMachine(init["C"], trainer="map", ubm=ubm, map_relevance_factor=case["relevance"], **kw)
@@ -172,6 +175,18 @@ def c_gmm(ctx, case):
             b = sut.params_of(gmm(case, thr * f).fit(X))
             if not all(np.allclose(x, y, rtol=1e-9, atol=0) for x, y in zip(pa, b)):
                 ctx.discard("stop decision within 1e-6 of the threshold")
+    cf = float(case.get("count_floor", EPS))
+    if cf > EPS:
+        # "updated or not" is a switch at the count floor: a total count within 1e-6 of it is a matter of rounding
+        for k in range(0, iters_a):
+            mk = gmm(case, None, cap=k).fit(X)
+            nk = np.asarray(mk.acc_stats(X).n, float)
+            if (np.abs(nk / cf - 1) < 1e-6).any():
+                ctx.discard("a component's total count within 1e-6 of the count floor")
+            if k == 0:
+                ctx.event("count-floor>eps")
+                if (nk < cf).any():
+                    ctx.event("count-floor active for the whole set")
     s = case["sched"]
     with sched.owned(s["order"], s["seed"], s["isolate"]) as ex:
         n0 = guard.steps()
